@@ -104,14 +104,17 @@ func assignIDs(er *estargz.Reader, e *estargz.TOCEntry) (rootID uint32, idMap ma
 
 		var ok bool
 		id, ok := idOfEntry[e.Name]
-		if !ok {
-			id, err = nextID()
-			if err != nil {
-				return 0, err
-			}
-			idMap[id] = e
-			idOfEntry[e.Name] = id
+		if ok {
+			// Already visited (e.g. reachable through a hardlink as well). Do not walk it
+			// again: entries can form a cycle when a hardlink points to a directory.
+			return id, nil
 		}
+		id, err = nextID()
+		if err != nil {
+			return 0, err
+		}
+		idMap[id] = e
+		idOfEntry[e.Name] = id
 
 		e.ForeachChild(func(_ string, ent *estargz.TOCEntry) bool {
 			_, err = mapChildren(ent)
